@@ -220,7 +220,7 @@ class Names:
 # --------------------------------------------------------------------------- docstrings
 
 def doc_block(style: str, desc: str, params: list[tuple[str, str, str]], result: tuple[str, str] | None,
-              indent: str, attrs: list[tuple[str, str]] | None = None) -> str:
+              indent: str, attrs: list[tuple[str, str]] | None = None, type_first: bool = True) -> str:
     """a docstring in the given style with unique marker texts; params = [(name, type_src, desc)],
     result = (type_src, desc)"""
     attrs = attrs if style in ("numpydoc", "google") else None
@@ -256,8 +256,12 @@ def doc_block(style: str, desc: str, params: list[tuple[str, str, str]], result:
         if params:
             lines.append("")
             for n, t, d in params:
+                # griffe's sphinx parser ignores a `:type:` line that FOLLOWS its `:param:` line when the signature has
+                # a hint (known finding K14-signature-fallback); the order is part of the specification (`type_first`)
+                if t and type_first:
+                    lines.append(f":type {n}: {t}")
                 lines.append(f":param {n}: {d}")
-                if t:
+                if t and not type_first:
                     lines.append(f":type {n}: {t}")
         if result:
             lines.append("")
@@ -368,7 +372,8 @@ class PkgGen:
         r = self.r
         ps = self.params(ag, method_kind, depth)
         f = {"kind": "function", "name": name, "method_kind": method_kind, "params": ps, "ret": None,
-             "returns": None, "doc": "", "result_doc": "", "is_property": False, "result_doc_type": None}
+             "returns": None, "doc": "", "result_doc": "", "is_property": False, "result_doc_type": None,
+             "rest_type_first": (len(name) + len(ps)) % 4 != 0}
         k = r.random()
         if k < self.infer_returns:
             f["returns"] = self.return_body()
@@ -621,7 +626,7 @@ def func_src(f, indent: str, style: str, classes_in_scope=None) -> list[str]:
     if style == "plaintext":
         d = doc_block(style, f["doc"], [], None, indent + "    ")
     else:
-        d = doc_block(style, f["doc"], pdocs, rdoc, indent + "    ")
+        d = doc_block(style, f["doc"], pdocs, rdoc, indent + "    ", type_first=f.get("rest_type_first", True))
     if d:
         lines.append(d.rstrip("\n"))
     if f.get("extra_body"):
